@@ -39,6 +39,11 @@ func FlattenPrefix(p string) FieldOpt { return func(f *Field) { f.FlattenPrefix 
 func Examples(v ...string) FieldOpt   { return func(f *Field) { f.Examples = v } }
 func WithRules(r *Rules) FieldOpt     { return func(f *Field) { f.Rules = r } }
 
+// PresentEmpty: the named sebuf annotations are on the field with their zero value (see Field.PresentEmpty).
+func PresentEmpty(names ...string) FieldOpt {
+	return func(f *Field) { f.PresentEmpty = append(f.PresentEmpty, names...) }
+}
+
 const Timestamp = "google.protobuf.Timestamp"
 
 func M(name string, fields ...*Field) *Message { return &Message{Name: name, Fields: fields} }
@@ -58,11 +63,13 @@ func Svc(name, base string, methods ...*Method) *Service {
 	return &Service{Name: name, BasePath: base, HasConfig: base != "", Methods: methods}
 }
 func (s *Service) WithHeaders(h ...*Header) *Service { s.Headers = h; return s }
+func (s *Service) WithEmptyHeaders() *Service        { s.HeadersEmpty = true; return s }
 
 func RPC(name, in, out, verb, path string) *Method {
 	return &Method{Name: name, In: in, Out: out, Verb: verb, Path: path, HasConfig: verb != "" || path != ""}
 }
 func (m *Method) WithHeaders(h ...*Header) *Method { m.Headers = h; return m }
+func (m *Method) WithEmptyHeaders() *Method        { m.HeadersEmpty = true; return m }
 
 // OneFile wraps messages/services into a single-file request with package pkg.
 func OneFile(id, pkg string, f *File) *Request {
